@@ -77,8 +77,31 @@ func (vc *VC) execCall(fr *Frame, n *Node, instr ssa.Instruction, call *ssa.Call
 		ci = fr.clos[mc]
 	}
 	if callee == nil {
-		// unknown function value
-		vc.havocAll(fr, n, "call of unknown function value")
+		// unknown function value: closed-world targets (every repository function of that signature used as a value)
+		targets := vc.p.funcValueTargets(call.Signature())
+		vc.used["calls through function values resolved closed-world over ./pkg/... and ./cmd/kevo (functions of identical signature whose value is taken)"] = true
+		maps := map[string]bool{}
+		top := false
+		for _, t := range targets {
+			if ms := vc.p.autoMods[t]; ms != nil {
+				if ms.Top {
+					top = true
+				}
+				for k := range ms.Maps {
+					maps[k] = true
+				}
+			}
+		}
+		if top {
+			vc.havocAll(fr, n, "call of function value")
+		} else {
+			var names []string
+			for k := range maps {
+				names = append(names, k)
+			}
+			sort.Strings(names)
+			vc.havocMaps(n, names)
+		}
 		vc.bindResult(fr, n, res, vc.havocResults(fr, n, call.Signature(), "dyn"))
 		return n
 	}
@@ -102,6 +125,13 @@ func (vc *VC) callStatic(fr *Frame, n *Node, callee *ssa.Function, ci *closureIn
 	key := relKey(callee)
 	fr.callOrd[key]++
 	ord := fr.callOrd[key]
+	fr.ghostArgs = map[string]Val{}
+	for i, p := range callee.Params {
+		if i < len(args) {
+			fr.ghostArgs[p.Name()] = Val{T: args[i], Ty: p.Type()}
+		}
+	}
+	gargs := fr.ghostArgs
 	vc.ghostAt(fr, n, "before", key, ord)
 	fc := vc.p.contracts[callee]
 	var out *Node
@@ -125,6 +155,7 @@ func (vc *VC) callStatic(fr *Frame, n *Node, callee *ssa.Function, ci *closureIn
 		out = n
 	}
 	if out != nil {
+		fr.ghostArgs = gargs
 		vc.ghostAt(fr, out, "after", key, ord, res)
 	}
 	return out
@@ -334,6 +365,7 @@ func (vc *VC) calleeNames(callee *ssa.Function, fc *FuncContract, args []string,
 }
 
 func (vc *VC) callByContract(fr *Frame, n *Node, callee *ssa.Function, fc *FuncContract, ci *closureInfo, call *ssa.CallCommon, res ssa.Value, args []string, pos token.Pos, ord int) {
+	vc.calledContracts[callee] = true
 	names := vc.calleeNames(callee, fc, args, ci, n.env)
 	pre := n.env.clone()
 	sc := &SpecCtx{vc: vc, fr: fr, node: n, env: n.env, old: pre, names: names, pkg: callee.Pkg.Pkg, calleeFn: callee}
